@@ -252,6 +252,42 @@ def run_cache(ctx, n_cases):
     for (case, outs), mo in zip(metas, ctx.get_model().batch(reqs)):
         if mo != outs: ctx.disagree("C04.run(cache)", case, [len(o) for o in outs], [len(o) for o in mo])
 
+class Flaky:
+    """an upstream that raises at position `at` during its first `times` iterations (None: always)"""
+    def __init__(self, items, at, times): self.items, self.at, self.times, self.iters = items, at, times, 0
+    def __iter__(self):
+        self.iters += 1; bad = self.times is None or self.iters <= self.times
+        for i, x in enumerate(self.items):
+            if bad and i == self.at: raise RuntimeError("the source failed at item %d" % i)
+            yield x
+
+def failing_source(ctx, n_cases):
+    """a read that FAILS (the source raises part-way) is not a complete read: whatever is read afterwards through the same cache is either the whole sequence or
+    another failure - never, silently, the part that had been cached when the source failed"""
+    import coba.pipes.filters as P
+    import coba.environments.filters as EF
+    rng = ctx.rng
+    for _ in range(n_cases):
+        N = rng.choice([3, 7, 26, 40, 60]); ns = rng.choice([1, 2, 5, 25]); at = rng.randrange(0, N); times = rng.choice([1, 1, 2, None])
+        env_level = rng.random() < 0.3
+        src = list(range(100, 100 + N)); hist = [rng.choice([None, None, None, 1, N // 2]) for _ in range(rng.randrange(2, 6))]
+        case = dict(what="the source raises part-way", n_slice=ns, N=N, fails_at=at, failing_iterations=times, history=hist, environment_cache=env_level)
+        ctx.count("cache-failing-source", repr(case), True)
+        flt = EF.Cache(ns) if env_level else P.Cache(ns)
+        up = Flaky([{"id": x} for x in src] if env_level else src, at, times)
+        for step, k in enumerate(hist):
+            got = []
+            try:
+                it = iter(flt.filter(up))
+                for x in (it if k is None else islice(it, k)): got.append(x["id"] if env_level else x)
+                del it
+            except RuntimeError: continue          # a failure is reported: fine
+            except Exception as e:
+                ctx.fail(["cache", "raises", errname(e), "failing-source"], "Cache raised %s on %s" % (errname(e), case), case); break
+            exp = src if k is None else src[:k]
+            if got != exp:
+                ctx.fail(["cache", "truncated-after-failure"], "read #%d through the cache gave %d items without any error, the sequence has %d (the source had failed at item %d during an earlier read)" % (step, len(got), len(exp), at), case); break
+
 def corpus(ctx):
     """fixed finding: logged Shuffle read partially, then fully"""
     import coba
@@ -349,6 +385,7 @@ def run(ctx):
     corpus(ctx)
     siblings(ctx, ctx.n(60, 800))
     run_cache(ctx, ctx.n(400, 5000))
+    failing_source(ctx, ctx.n(150, 2000))
     run_pipelines(ctx, ctx.n(400, 5000))
 
 def replay(r):
